@@ -312,6 +312,10 @@ def gen_acts(rng):
     """Real table actions.  The value each path action must produce is computed here from the structured
     description (distinct atoms, ':' delimiter), so the model is given the action's *result*, not its text."""
     base = gen_env(rng, rng.randint(0, 6))
+    for pair in base:
+        # the table's own variable syntax in a value the path actions rewrite: expanded by Eups.setEnv (C12's business)
+        while "${" in pair[1] or "$?" in pair[1]:
+            pair[1] = gen_value(rng)
     names = [k for k, _ in base] or ["A"]
     env = dict(base)
     acts = []
